@@ -43,6 +43,11 @@ type DADouble struct {
 	getCalls    map[uint64]int
 	// Classify decodes a blob into a trace summary (kind, h, hash, sig, ntx).
 	Classify func([]byte) F
+	// SubmitDelay: a Submit call takes this long (real time) before it is answered; one shot.
+	SubmitDelay time.Duration
+	// HangUntil: a Submit call that arrives before this instant is never answered (it ends only with its context):
+	// a request swallowed by an outage. Calls that arrive later are answered normally.
+	HangUntil time.Time
 	// SubmitGate, when non-nil, is received from before a Submit call is answered.
 	SubmitGate chan struct{}
 	// MaxBlob, when > 0, rejects the whole call with ErrBlobSizeOverLimit if any blob is larger.
@@ -133,6 +138,15 @@ func (d *DADouble) Submit(ctx context.Context, blobs []coreda.Blob, gasPrice flo
 }
 
 func (d *DADouble) SubmitWithOptions(ctx context.Context, blobs []coreda.Blob, gasPrice float64, namespace []byte, options []byte) ([]coreda.ID, error) {
+	if !d.HangUntil.IsZero() && time.Now().Before(d.HangUntil) {
+		d.tr.Emit("DASubmit", F{"blobs": []F{}, "res": "hung", "acc": 0, "dah": 0, "nb": len(blobs)})
+		<-ctx.Done()
+		return nil, ctx.Err()
+	}
+	if dl := d.SubmitDelay; dl > 0 {
+		d.SubmitDelay = 0
+		time.Sleep(dl)
+	}
 	if d.SubmitGate != nil && d.GateIgnoresCtx {
 		if d.AtSubmitGate != nil {
 			d.AtSubmitGate()
